@@ -156,6 +156,12 @@ func runReqObj(t *testing.T, c *engine.Check) {
 }
 
 func reqobjCase(t *testing.T, r *rig.Rig, g func(string) string) engine.Result {
+	res, _ := reqobjCaseW(t, r, g)
+	return res
+}
+
+// reqobjCaseW additionally returns the expectation of the reference predicate.
+func reqobjCaseW(t *testing.T, r *rig.Rig, g func(string) string) (_ engine.Result, expect want) {
 	outer, router, plainScope := g("outer"), g("router"), g("plainScope")
 	resolve := func(x string) string {
 		switch x {
@@ -213,7 +219,8 @@ func reqobjCase(t *testing.T, r *rig.Rig, g func(string) string) engine.Result {
 	tok := serialize(sname, kid, payload)
 
 	// ---- reference predicate
-	expect, rule := mustAccept, "all-conditions-hold" // mustAccept = object's values must be used
+	rule := "all-conditions-hold"
+	expect = mustAccept // mustAccept = object's values must be used
 	soft := ""
 	hard := func(s string) {
 		if expect != mustReject {
@@ -273,7 +280,7 @@ func reqobjCase(t *testing.T, r *rig.Rig, g func(string) string) engine.Result {
 		resp = r.Do(ri, rig.Req("GET", "/authorize", q, nil))
 	})
 	if pan != "" {
-		return engine.Bad(rule, "harness-panic", "C14/harness-panic", pan)
+		return engine.Bad(rule, "harness-panic", "C14/harness-panic", pan), expect
 	}
 	site := "/" + router
 	desc := func() string {
@@ -288,19 +295,19 @@ func reqobjCase(t *testing.T, r *rig.Rig, g func(string) string) engine.Result {
 		}
 		loc := resp.Header.Get("Location")
 		if expect == mustReject && present["redirect_uri"] && strings.HasPrefix(loc, objectValue("redirect_uri", outer, foreign)[0]) {
-			return engine.Bad(rule, outcome, "C14/error-redirect-to-object-uri-despite:"+rule+site, "the object must not count ("+rule+") but the error was redirected to its redirect_uri: "+desc())
+			return engine.Bad(rule, outcome, "C14/error-redirect-to-object-uri-despite:"+rule+site, "the object must not count ("+rule+") but the error was redirected to its redirect_uri: "+desc()), expect
 		}
 		if expect == mustAccept && resp.Panic == "" {
-			return engine.Bad(rule, outcome, "C14/valid-request-object-not-honoured"+site, "all conditions hold but no auth request was created: "+desc())
+			return engine.Bad(rule, outcome, "C14/valid-request-object-not-honoured"+site, "all conditions hold but no auth request was created: "+desc()), expect
 		}
 		if expect == mustAccept {
-			return engine.Bad(rule, outcome, "C14/valid-request-object-not-honoured"+site+"/panic", "all conditions hold but the handler panicked: "+resp.Panic)
+			return engine.Bad(rule, outcome, "C14/valid-request-object-not-honoured"+site+"/panic", "all conditions hold but the handler panicked: "+resp.Panic), expect
 		}
-		return engine.OK(rule, outcome)
+		return engine.OK(rule, outcome), expect
 	}
 	args := calls[0].Args
 	if len(calls) > 1 || args[0] != outer || args[2] != "code" {
-		return engine.Bad(rule, "switched", "C14/authorize-switched-client-or-response-type"+site, "auth request created for another client / response type than the outer ones: "+desc())
+		return engine.Bad(rule, "switched", "C14/authorize-switched-client-or-response-type"+site, "auth request created for another client / response type than the outer ones: "+desc()), expect
 	}
 	usedObj, usedPlain, other := []string{}, []string{}, []string{}
 	for _, m := range members {
@@ -345,16 +352,16 @@ func reqobjCase(t *testing.T, r *rig.Rig, g func(string) string) engine.Result {
 	case mustReject:
 		if len(usedObj) > 0 || len(other) > 0 {
 			return engine.Bad(rule, outcome, "C14/object-values-used-despite:"+rule+site,
-				fmt.Sprintf("the object must not count (%s) but the stored auth request carries its values for %v (other: %v): %s", rule, usedObj, other, desc()))
+				fmt.Sprintf("the object must not count (%s) but the stored auth request carries its values for %v (other: %v): %s", rule, usedObj, other, desc())), expect
 		}
 	case mustAccept:
 		if len(present) == 0 || (len(present) == 1 && present["scope"] && plainScope == "email") {
-			return engine.OK("valid-object-without-discriminating-member", outcome)
+			return engine.OK("valid-object-without-discriminating-member", outcome), expect
 		}
 		if outcome != "object" && outcome != "object-but-scope" {
 			return engine.Bad(rule, outcome, "C14/valid-request-object-not-honoured"+site+"/"+outcome,
-				fmt.Sprintf("all conditions hold but the stored auth request does not carry the object's values (object: %v plain: %v other: %v): %s", usedObj, usedPlain, other, desc()))
+				fmt.Sprintf("all conditions hold but the stored auth request does not carry the object's values (object: %v plain: %v other: %v): %s", usedObj, usedPlain, other, desc())), expect
 		}
 	}
-	return engine.OK(rule, outcome)
+	return engine.OK(rule, outcome), expect
 }
